@@ -388,7 +388,9 @@ fn h_point(site: &'static str) {
 fn h_block(probe: &(dyn Fn() -> bool + Sync), site: &'static str) {
     // Fast path: the resource is free. Not a scheduling point: the code between the thread's previous point and
     // this acquisition is local, so "another thread acquires first" is the schedule that preempts at that point.
-    if probe() {
+    // (the journal lock is the exception: it orders every write, and a seeded change showed that shared state can
+    // be touched right before it — so its acquisition is always a scheduling point)
+    if site != "journal.lock" && probe() {
         return;
     }
     // lifetime erasure: the closure lives on the parked thread's stack for as long as it is parked
